@@ -90,6 +90,7 @@ def run(ctx):
     obase += ['idx %d %d 0' % (op, m) for op in range(7) for m in (0, 3, 4, 5, 10, 511, 512, 513, 1024, 1100)]
     fstrs = ['6', '9e', 'lzma2:dict=1MiB', 'x86 delta:dist=4 lzma2:preset=3', 'arm64:start=4096 lzma2:lc=1,lp=2', 'delta:dist=256 riscv powerpc:start=16 lzma2:nice=273,mf=bt2', 'lzma1:pb=0']
     obase += ['flt %d 0 %s' % (op, st) for op in range(5) for st in fstrs if not (op in (3, 4) and 'lzma1' in st)]
+    obase += ['buf %d 0 %d %s' % (w, bad, udata[:3000].hex()) for w in range(7) for bad in (0, 1) if not (bad and w >= 3)]      # refused options: lc+lp > 4 matters to encoders only
     ob, of = run_lines(ops, obase, shards=4)
     for x in of: viol.append(dict(why='operation driver crashed without any injected failure', line=(x[0] or '')[:3000], stderr=x[1][-2000:]))
     olines, ometa = [], []
@@ -98,10 +99,12 @@ def run(ctx):
         t = o.split()
         if not t[0].lstrip('-').isdigit(): viol.append(dict(why='operation driver: setup failed: ' + o, line=l[:3000], stderr='')); continue
         clean_ok = (t[0] == '0' and t[2] == '1' and t[3] == '1' and t[4] == '0' and t[5] == '0') if l.startswith('upd') else (t[0] == '0' and t[2] == '1' and t[3] == '0' and t[4] == '0')
+        if l.startswith('buf') and l.split()[3] == '1': clean_ok = (t[0] not in ('0', '1') and t[2] == '1' and t[3] == '0' and t[4] == '0')     # refused options: an error, positions untouched
         if not clean_ok: viol.append(dict(why='operation without injected failure did not behave: ' + o, line=l[:3000], stderr='')); continue
         w = l.split(' ')
         for k in range(1, int(t[1]) + 1):
             if w[0] == 'idx': olines.append('idx %s %s %d' % (w[1], w[2], k))
+            elif w[0] == 'buf' and w[3] == '1': continue
             else: olines.append(' '.join([w[0], w[1], str(k)] + w[3:]))
             ometa.append(w[0])
     oo, of = run_lines(ops, olines, shards=8)
@@ -114,7 +117,7 @@ def run(ctx):
             elif t[2] != '1' or t[3] != '1': why = 'after lzma_filters_update returned %s the encoder finished with %s and its output %s' % (t[0], t[2], 'decodes to the input' if t[3] == '1' else 'does not decode to the input')
             elif t[4] != '0' or t[5] != '0': why = '%s bytes live after lzma_end, %s bad frees' % (t[4], t[5])
         else:
-            if t[0] not in ('0', '5'): why = 'operation returned %s' % t[0]
+            if t[0] not in ('0', '5') and not (kind == 'buf' and t[0] == '10'): why = 'operation returned %s' % t[0]
             elif t[2] != '1': why = 'operation returned %s and the caller\'s objects are not what they must be afterwards' % t[0]
             elif t[3] != '0' or t[4] != '0': why = '%s bytes live after everything was freed, %s bad frees' % (t[3], t[4])
         stats[(kind, int(t[0]))] = stats.get((kind, int(t[0])), 0) + 1
